@@ -54,10 +54,116 @@ type jop struct {
 	Remaining [][]int `json:"impl_remaining,omitempty"`
 	OK        bool    `json:"impl_ok,omitempty"`
 }
+// jms: SendWrite over a multi-segment backlog; the remote accepts everything but answers request i
+// only after 10.5 s when Ticks[i] is set, so that the 10 s scannerAdvanceInterval ticker of SendWrite
+// has fired when that Write returns (at most one tick per scenario).
+type jms struct {
+	Segs      [][][]int `json:"segments"`
+	MaxSeg    int64     `json:"max_segment_size"`
+	Ticks     []bool    `json:"ticker_fired_after_batch"`
+	Posted    [][]int   `json:"impl_posted"`
+	Remaining [][]int   `json:"impl_still_queued"`
+}
 type jcase struct {
 	Drop  bool    `json:"drop_non_retryable_data"`
 	Ops   []jop   `json:"ops"`
 	Final [][]int `json:"impl_final_queue"`
+	MS    *jms    `json:"multi_segment_ticker,omitempty"`
+}
+
+
+type msStore struct{ url string }
+
+func (s *msStore) GetFullHTTPConfig(context.Context, platform.ID) (*influxdb.ReplicationHTTPConfig, error) {
+	return &influxdb.ReplicationHTTPConfig{RemoteURL: s.url, RemoteToken: "t", RemoteBucketName: "b"}, nil
+}
+func (s *msStore) UpdateResponseInfo(context.Context, platform.ID, int, string) error { return nil }
+
+func execMS(ms *jms) string {
+	dir, err := os.MkdirTemp(tmpRoot, "c27m-")
+	if err != nil {
+		panic(err)
+	}
+	defer os.RemoveAll(dir)
+	var mu sync.Mutex
+	var posted [][]int
+	nreq := 0
+	srv := httptest.NewServer(http.HandlerFunc(func(rw http.ResponseWriter, r *http.Request) {
+		body, _ := io.ReadAll(r.Body)
+		mu.Lock()
+		posted = append(posted, ints(body))
+		i := nreq
+		nreq++
+		mu.Unlock()
+		if i < len(ms.Ticks) && ms.Ticks[i] {
+			time.Sleep(10500 * time.Millisecond)
+		}
+		rw.WriteHeader(204)
+	}))
+	defer srv.Close()
+	q, err := durablequeue.NewQueue(dir, 1<<20, ms.MaxSeg, &durablequeue.SharedCount{}, 8, func([]byte) error { return nil })
+	if err != nil {
+		panic(err)
+	}
+	if err := q.Open(); err != nil {
+		return "queue open: " + err.Error()
+	}
+	defer q.Close()
+	for _, sg := range ms.Segs {
+		for _, b := range sg {
+			if err := q.Append(bytesOf(b)); err != nil {
+				return "Append: " + err.Error()
+			}
+		}
+	}
+	// the batches must be grouped into segment files exactly as the scenario says
+	es, _ := os.ReadDir(dir)
+	if len(es) != len(ms.Segs) {
+		return fmt.Sprintf("scenario setup: %d segment files, expected %d", len(es), len(ms.Segs))
+	}
+	done := make(chan struct{})
+	defer close(done)
+	m := metrics.NewReplicationsMetrics()
+	wr := remotewrite.NewWriter(platform.ID(1), &msStore{srv.URL}, m, zap.NewNop(), done)
+	wr.VerifSetClientTimeout(60 * time.Second)
+	rq := replications.VerifNewQueue(platform.ID(1), q, wr, m, zap.NewNop(), time.Hour)
+	if p := vh.Guard(func() { rq.SendWrite() }); p != "" {
+		return "SendWrite panicked: " + p
+	}
+	mu.Lock()
+	ms.Posted = append([][]int{}, posted...)
+	mu.Unlock()
+	// what is still queued: drain destructively (scanner + Advance per segment)
+	ms.Remaining = [][]int{}
+	for it := 0; it < 64; it++ {
+		sc, err := q.NewScanner()
+		if err != nil {
+			break
+		}
+		for sc.Next() {
+			ms.Remaining = append(ms.Remaining, ints(sc.Bytes()))
+		}
+		sc.Advance()
+	}
+	return ""
+}
+
+func msTerm(ms *jms) string {
+	if ms == nil {
+		return "None"
+	}
+	segs := make([]string, len(ms.Segs))
+	for i, sg := range ms.Segs {
+		segs[i] = blocks(sg)
+	}
+	return fmt.Sprintf("(Some {| ms_segs := %s; ms_ticks := %s; ms_posted := %s; ms_remaining := %s |})",
+		vh.List(segs), vh.Bools(ms.Ticks), blocks(ms.Posted), blocks(ms.Remaining))
+}
+func msSig(ms *jms) string { return "" } // finding fixed (commit 1bb2e81f1f): the shape is no longer tolerated
+
+// msAtSegmentEnd: the ticker fires after the last block of a head segment with segments behind it
+func msAtSegmentEnd(ms *jms) bool {
+	return ms != nil && len(ms.Segs) > 1 && len(ms.Segs[0]) > 0 && len(ms.Ticks) >= len(ms.Segs[0]) && ms.Ticks[len(ms.Segs[0])-1]
 }
 
 // ---- scripted world shared by the config store and the fake remote
@@ -69,6 +175,10 @@ type world struct {
 	url      string
 	posted   [][]int
 	recorded []int
+	// setTimeout adjusts the writer's HTTP client timeout for the Write that is starting: short
+	// only for scripted hangs, generous otherwise so that a loaded machine cannot turn an ordinary
+	// answer into a timeout.
+	setTimeout func(time.Duration)
 }
 
 func (w *world) GetFullHTTPConfig(ctx context.Context, id platform.ID) (*influxdb.ReplicationHTTPConfig, error) {
@@ -78,6 +188,13 @@ func (w *world) GetFullHTTPConfig(ctx context.Context, id platform.ID) (*influxd
 		w.cur, w.script = w.script[0], w.script[1:]
 	} else {
 		w.cur = jitem{Kind: "status", Code: 204}
+	}
+	if w.setTimeout != nil {
+		if w.cur.Kind == "timeout" {
+			w.setTimeout(80 * time.Millisecond)
+		} else {
+			w.setTimeout(20 * time.Second)
+		}
 	}
 	if w.cur.CfgFail {
 		return nil, errors.New("scripted config lookup failure")
@@ -206,7 +323,7 @@ func execCase(c *jcase) string {
 	defer close(done)
 	m := metrics.NewReplicationsMetrics()
 	wr := remotewrite.NewWriter(id, w, m, zap.NewNop(), done)
-	wr.VerifSetClientTimeout(80 * time.Millisecond)
+	w.setTimeout = wr.VerifSetClientTimeout
 	rq := replications.VerifNewQueue(id, q, wr, m, zap.NewNop(), maxAge)
 	for i := range c.Ops {
 		o := &c.Ops[i]
@@ -278,12 +395,15 @@ func caseTerm(c *jcase) string {
 			ops[i] = fmt.Sprintf("OWrite %d %s %s %s", o.Attempts, itemTerm(o.Script[0]), zlit(o.Wait), vh.Bool(o.OK))
 		}
 	}
-	return fmt.Sprintf("{| c_drop := %s; c_ops := %s; c_final := %s |}", vh.Bool(c.Drop), vh.List(ops), blocks(c.Final))
+	return fmt.Sprintf("{| c_drop := %s; c_ops := %s; c_final := %s; c_ms := %s |}", vh.Bool(c.Drop), vh.List(ops), blocks(c.Final), msTerm(c.MS))
 }
 
 func emit(w *vh.W, c *jcase) {
 	idx := w.Len()
 	f := execCase(c)
+	if c.MS != nil && c.MS.Posted == nil && f == "" {
+		f = execMS(c.MS)
+	}
 	nsend, nfail := 0, 0
 	for _, o := range c.Ops {
 		w.Count("op", o.Kind)
@@ -304,7 +424,10 @@ func emit(w *vh.W, c *jcase) {
 			}
 		}
 	}
-	w.Add(caseTerm(c), c, nsend > 0 && nfail > 0, "")
+	if c.MS != nil {
+		w.Count("multi_segment_ticker_shape", map[bool]string{true: "tick-at-segment-end", false: "benign"}[msAtSegmentEnd(c.MS)])
+	}
+	w.Add(caseTerm(c), c, (nsend > 0 && nfail > 0) || c.MS != nil, msSig(c.MS))
 	if f != "" {
 		w.Fail(idx, f, "")
 	}
@@ -312,7 +435,7 @@ func emit(w *vh.W, c *jcase) {
 
 func main() {
 	w := vh.New("C27", "From Verif Require Import Base.Prelude Model.C27.\nOpen Scope Z_scope.", "case", "check")
-	w.Rule = "histories (4-14 ops) of enqueue / SendWrite (with a per-request script of remote answers: 204, 200, 400, 401, 404, 413, 429 with Retry-After in {absent, 0, 1, 5, 120, -3, +7, 007, 00, abc, 1.5, 99999999999999999999, 9223372036}, 500, 503, hang->timeout, dropped connection; config lookup / UpdateResponseInfo failures) / age purge (segment mtime older or newer than maxAge) / direct writer.Write with attempts 0..13, with DropNonRetryableData on or off, against the real replicationQueue.SendWrite + remotewrite writer + durablequeue. Consecutive failing sends drive failedWrites past the backoff cap. Non-trivial: at least one SendWrite that failed. Distinct: distinct Gallina terms."
+	w.Rule = "histories (4-14 ops) of enqueue / SendWrite (with a per-request script of remote answers: 204, 200, 400, 401, 404, 413, 429 with Retry-After in {absent, 0, 1, 5, 120, -3, +7, 007, 00, abc, 1.5, 99999999999999999999, 9223372036}, 500, 503, hang->timeout, dropped connection; config lookup / UpdateResponseInfo failures) / age purge (segment mtime older or newer than maxAge) / direct writer.Write with attempts 0..13, with DropNonRetryableData on or off, against the real replicationQueue.SendWrite + remotewrite writer + durablequeue. Consecutive failing sends drive failedWrites past the backoff cap. Four additional cases run SendWrite over a multi-segment backlog (tiny segment size) with the remote answering one request only after 10.5 s so that SendWrite's 10 s in-loop ticker advance fires after that batch (mid-segment, at the last block of the head segment with or without segments behind it). Non-trivial: at least one SendWrite that failed, or a multi-segment ticker case. Distinct: distinct Gallina terms."
 	tmpRoot = os.TempDir()
 	if st, err := os.Stat("/dev/shm"); err == nil && st.IsDir() {
 		tmpRoot = "/dev/shm"
@@ -342,11 +465,28 @@ func main() {
 	}
 	long.Ops = append(long.Ops, jop{Kind: "send", Script: []jitem{st(429, "")}}, jop{Kind: "send", Script: []jitem{st(204, "")}})
 	hand = append(hand, long)
+	// multi-segment backlog + ticker advance: 10.5 s each, run in the background while the other cases are generated
+	bb := func(i int) []int { return []int{i, 7, 7, 7, 7, 7, 7, 7, 7, 7, i} } // 11 bytes: one per 24-byte segment, two per 40-byte segment
+	mss := []*jms{
+		{MaxSeg: 24, Segs: [][][]int{{bb(1)}, {bb(2)}, {bb(3)}}, Ticks: []bool{true}},
+		{MaxSeg: 40, Segs: [][][]int{{bb(1), bb(2)}, {bb(3), bb(4)}}, Ticks: []bool{true, false}},
+		{MaxSeg: 40, Segs: [][][]int{{bb(1), bb(2)}, {bb(3), bb(4)}, {bb(5)}}, Ticks: []bool{false, true}},
+		{MaxSeg: 40, Segs: [][][]int{{bb(1), bb(2)}}, Ticks: []bool{false, true}},
+	}
+	msFail := make([]string, len(mss))
+	var msWG sync.WaitGroup
+	if w.N >= 100 {
+		for i := range mss {
+			msWG.Add(1)
+			go func(i int) { defer msWG.Done(); msFail[i] = execMS(mss[i]) }(i)
+		}
+	}
 	for i := range hand {
 		if w.Len() < w.N {
 			emit(w, &hand[i])
 		}
 	}
+	defer func() {}()
 	retryVals := []string{"", "", "0", "1", "5", "120", "-3", "+7", "007", "00", "abc", "1.5", "99999999999999999999", "9223372036", "12x"}
 	codes := []int{204, 204, 204, 204, 200, 400, 400, 401, 404, 413, 429, 429, 429, 500, 503}
 	genItem := func(allowSlow bool) jitem {
@@ -416,6 +556,20 @@ func main() {
 			}
 		}
 		emit(w, &c)
+	}
+	if w.N >= 100 {
+		msWG.Wait()
+		for i := range mss {
+			if mss[i].Posted == nil {
+				mss[i].Posted = [][]int{}
+			}
+			c := jcase{MS: mss[i]}
+			idx := w.Len()
+			emit(w, &c)
+			if msFail[i] != "" {
+				w.Fail(idx, msFail[i], "")
+			}
+		}
 	}
 	w.Finish()
 }
